@@ -13,11 +13,12 @@ open Copia.Hub
 
 variable {H : Type} [DecidableEq H]
 
-/-- hub-side Put at key level: commit iff the current hash equals `expected`, else store a conflict-copy -/
-def casPut (hash : Bytes → H) (cname : List (List Char) → H → List (List Char))
+/-- hub-side Put at key level: commit iff the current hash equals `expected`, else store a conflict-copy
+(at a name the hub picks by looking at the tree: D13 repair) -/
+def casPut (hash : Bytes → H) (cname : HTree → List (List Char) → H → List (List Char))
     (t : HTree) (k : List (List Char)) (expected : Option H) (c : Bytes) : HTree × Bool :=
   if (hget t k).map hash = expected then (hins t k c, true)
-  else (hins t (cname k (hash c)) c, false)
+  else (hins t (cname t k (hash c)) c, false)
 
 structure Counters where
   sent : Nat := 0
@@ -26,7 +27,7 @@ structure Counters where
   deriving DecidableEq, Repr
 
 /-- one iteration of the push loop, against a (possibly stale) listing -/
-def syncFile (hash : Bytes → H) (cname : List (List Char) → H → List (List Char))
+def syncFile (hash : Bytes → H) (cname : HTree → List (List Char) → H → List (List Char))
     (listing : List (List Char) → Option H) (st : HTree × Counters) (f : List (List Char) × Bytes) : HTree × Counters :=
   let expected := listing f.1
   if expected = some (hash f.2) then (st.1, { st.2 with skipped := st.2.skipped + 1 })
@@ -35,7 +36,7 @@ def syncFile (hash : Bytes → H) (cname : List (List Char) → H → List (List
     if r.2 then (r.1, { st.2 with sent := st.2.sent + 1 }) else (r.1, { st.2 with conflicts := st.2.conflicts + 1 })
 
 /-- `hub_sync` without interference: listing = the hub's own state at the start -/
-def hubSync (hash : Bytes → H) (cname : List (List Char) → H → List (List Char))
+def hubSync (hash : Bytes → H) (cname : HTree → List (List Char) → H → List (List Char))
     (t : HTree) (localFiles : List (List (List Char) × Bytes)) : HTree × Counters :=
   localFiles.foldl (syncFile hash cname (fun k => (hget t k).map hash)) (t, {})
 
